@@ -1,6 +1,196 @@
 import YaegiVerif.Common.Sexp
-/- Line-protocol front end for C11 (glue). Placeholder until the property's model exists. -/
+import YaegiVerif.Model.Piecewise
+import YaegiVerif.Generated.C11
+/- Line-protocol front end for C11 (glue, not a proof obligation).
+
+   prog (CUT…) (ITEM…)      → parts=<sizes of the texts> p=<obs> pat=<k> w=<obs> class=<label> dom=<0|1>
+        p = the session: every chunk of `split cuts items` handed to Eval as its maximal runs
+        w = the whole program evaluated as one file
+   hist (ITEM…) (ITEM…) …   → h=<obs> hat=<k> class=<label>   (dom: 2 = domain of chunks_eq_whole, 1 = of texts_eq_whole_partial)
+        the texts of a session, given explicitly (redefinition histories)
+   obs  = <ok|parse|redeclared|undefined|defloop|panic|fuel>|<tag:value,…>|<name:value,…>
+   pat/hat = index of the text at which the session stopped, or -
+   ITEM = (var x E) (closure x B) (func f B) (type t) (method t m B) (init B) (stmt S) (define x E)
+   E    = (num k) arg recv (glob x) (bin op E E) (call f E) (callv x E) (mcall t m E E)
+   S    = (print tag E) (set x E) (eval E)          B = (body none|E (S…) E)
+   The facts (resizeFrame copies, funcDecl overwrites, …) are the regenerated ones. -/
 namespace YaegiVerif.Driver.C11
-open YaegiVerif
-def handle (_args : List Sexp) : String := "unimplemented"
+open YaegiVerif YaegiVerif.Piecewise
+
+def fx : Facts := Generated.C11.facts
+def fuel : Nat := 400
+
+def parseOp : String → Option Op
+  | "add" => some .add | "sub" => some .sub | "mul" => some .mul
+  | _ => none
+
+partial def parseE : Sexp → Option SExpr
+  | .atom "arg" => some .arg
+  | .atom "recv" => some .recv
+  | .list [.atom "num", k] => k.int?.map .num
+  | .list [.atom "glob", .atom x] => some (.glob x)
+  | .list [.atom "bin", .atom op, a, b] => do
+    let o ← parseOp op
+    let a' ← parseE a
+    let b' ← parseE b
+    some (.bin o a' b')
+  | .list [.atom "call", .atom f, a] => (parseE a).map (.call f)
+  | .list [.atom "callv", .atom x, a] => (parseE a).map (.callv x)
+  | .list [.atom "mcall", .atom t, .atom m, r, a] => do
+    let r' ← parseE r
+    let a' ← parseE a
+    some (.mcall t m r' a')
+  | _ => none
+
+def parseS : Sexp → Option SStmt
+  | .list [.atom "print", tag, e] => do
+    let t ← tag.nat?
+    let e' ← parseE e
+    some (.print t e')
+  | .list [.atom "set", .atom x, e] => (parseE e).map (.set x)
+  | .list [.atom "eval", e] => (parseE e).map .eval
+  | _ => none
+
+def parseB : Sexp → Option SBody
+  | .list [.atom "body", g, .list ss, r] => do
+    let g' ← (match g with
+      | .atom "none" => some none
+      | e => (parseE e).map some)
+    let ss' ← ss.mapM parseS
+    let r' ← parseE r
+    some ⟨g', ss', r'⟩
+  | _ => none
+
+def parseItem : Sexp → Option Item
+  | .list [.atom "var", .atom x, e] => (parseE e).map (.var x)
+  | .list [.atom "closure", .atom x, b] => (parseB b).map (.closure x)
+  | .list [.atom "func", .atom f, b] => (parseB b).map (.func f)
+  | .list [.atom "type", .atom t] => some (.type t)
+  | .list [.atom "method", .atom t, .atom m, b] => (parseB b).map (.method t m)
+  | .list [.atom "init", b] => (parseB b).map .init
+  | .list [.atom "stmt", s] => (parseS s).map .stmt
+  | .list [.atom "define", .atom x, e] => (parseE e).map (.define x)
+  | _ => none
+
+def showHalt : Option Halt → String
+  | none => "ok"
+  | some .parse => "parse"
+  | some .redeclared => "redeclared"
+  | some .undefined => "undefined"
+  | some .defloop => "defloop"
+  | some .nilcall => "panic"
+  | some .dangling => "panic"
+  | some .fuel => "fuel"
+
+def dash (s : String) : String := if s.isEmpty then "-" else s
+
+/-- variables of the final scope, latest binding of each name, in order of first definition -/
+def globalsOf (s : State) : List (Name × Int) :=
+  let names := (s.c.tab.syms.reverse.map (·.1)).eraseDups
+  names.filterMap fun x => (s.global x).map fun v => (x, v)
+
+def showObs (s : State) : String :=
+  showHalt s.r.halt ++ "|" ++
+  dash (",".intercalate (s.r.out.map fun p => s!"{p.1}:{p.2}")) ++ "|" ++
+  dash (",".intercalate ((globalsOf s).map fun p => s!"{p.1}:{p.2}"))
+
+/-- evaluate the texts of a session, remembering where it stopped -/
+def session (texts : List (List Item)) : State × Option Nat :=
+  let step := fun (acc : State × Option Nat × Nat) (t : List Item) =>
+    let s' := evalText fx fuel acc.1 t
+    let at' := match acc.2.1 with
+      | some k => some k
+      | none => if s'.r.halt.isSome then some acc.2.2 else none
+    (s', at', acc.2.2 + 1)
+  let r := texts.foldl step (State.empty, none, 0)
+  (r.1, r.2.1)
+
+def showAt : Option Nat → String
+  | none => "-"
+  | some k => toString k
+
+/-! class labels: decidable predicates of the input, the first that applies -/
+
+def methodKeys (items : List Item) : List (Name × Name) :=
+  items.filterMap fun it => match it with
+    | .method t m _ => some (t, m)
+    | _ => none
+
+def hasDupKeys : List (Name × Name) → Bool
+  | [] => false
+  | x :: xs => xs.contains x || hasDupKeys xs
+
+def maxPhase (t : List Item) : Nat := (t.filterMap Item.phase).foldl max 0
+def minPhase (t : List Item) : Nat := (t.filterMap Item.phase).foldl min 2
+
+/-- no step of a later text belongs before a step of an earlier text -/
+def phaseSortedAcross : List (List Item) → Bool
+  | [] => true
+  | t :: rest => rest.all (fun u => (u.filterMap Item.phase).isEmpty || (t.filterMap Item.phase).isEmpty || maxPhase t ≤ minPhase u)
+      && phaseSortedAcross rest
+
+/-- every text compiles in the scope of the texts up to and including itself (model run without execution) -/
+def textsCompile (texts : List (List Item)) : Bool :=
+  let step := fun (acc : CState × Bool) (t : List Item) =>
+    let T := (regItems fx acc.1.tab.nvars (acc.1.tab, acc.1.code.length) t).1
+    match compileItems T acc.1.code.length t with
+    | some (code, _) => (⟨T, acc.1.code ++ code⟩, acc.2)
+    | none => (⟨T, acc.1.code⟩, false)
+  (texts.foldl step (CState.empty, true)).2
+
+/-- a statement mentions a variable defined by a later statement of the same text -/
+def useBeforeDefine (texts : List (List Item)) : Bool :=
+  texts.any fun t => !stmtsOk t
+
+def classProg (items : List Item) (texts : List (List Item)) : String :=
+  if hasDup (items.filterMap Item.declName) || hasDupKeys (methodKeys items) then "redefinition"
+  else if !noMain State.empty items then "main-declared"
+  else if !textsCompile texts then "forward-reference-across-chunks"
+  else if useBeforeDefine texts then "use-before-define"
+  else if !localsStayLocal items then "decl-uses-main-local"
+  else if !phaseSortedAcross texts then "init-order-across-chunks"
+  else if texts.any (fun t => !depsLocal t) then "var-names-earlier-chunk-var"
+  else if !DefBeforeUse fx State.empty items then "forward-reference-within-chunk"
+  else "in-domain"
+
+/-- histories: redefinitions are the point, the labels name what is redefined; a text the
+    incremental parser rejects ends the session, what comes before decides first -/
+def classHist (all : List (List Item)) : String :=
+  let texts := all.takeWhile homogeneous
+  let items := texts.flatten
+  if hasDupKeys (methodKeys items) then "method-redefinition"
+  else if !noMain State.empty items then "main-declared"
+  else if hasDup (items.filterMap fun it => match it with | .type t => some t | _ => none) then "type-redefinition"
+  else if !textsCompile texts then "forward-reference-across-chunks"
+  else if useBeforeDefine texts then "use-before-define"
+  else if texts.any (fun t => !depsLocal t) then "var-names-earlier-chunk-var"
+  else if texts.length < all.length then "mixed-text"
+  else if hasDup (items.filterMap Item.declName) then "history"
+  else "history-plain"
+
+def handle (args : List Sexp) : String :=
+  match args with
+  | [.atom "prog", cuts, .list its] =>
+    (match (match cuts with | .list cs => cs.mapM Sexp.nat? | _ => none), its.mapM parseItem with
+     | some cuts, some items =>
+       let chunks := split cuts items
+       let texts := chunks.flatMap runs
+       let p := session texts
+       let w := evalWhole fx fuel State.empty items
+       -- 2: domain of chunks_eq_whole (every cut list); 1: domain of texts_eq_whole_partial (this cut list); 0: outside
+       let dom := if Dom fx State.empty items && initsIndirect items then 2
+         else if Dom fx State.empty items && texts.all depsLocal then 1 else 0
+       let parts := dash (",".intercalate (texts.map fun t => toString t.length))
+       -- forward dependencies between the initialisers of one text (or of the whole file): not modelled
+       let fwd := !orderOk items || texts.any (fun t => !orderOk t)
+       s!"parts={parts} p={showObs p.1} pat={showAt p.2} w={showObs w} class={classProg items texts} dom={dom} fwdvar={if fwd then 1 else 0}"
+     | _, _ => "bad-op")
+  | .atom "hist" :: texts =>
+    (match texts.mapM (fun t => match t with | .list its => its.mapM parseItem | _ => none) with
+     | some texts =>
+       let h := session texts
+       s!"h={showObs h.1} hat={showAt h.2} class={classHist texts} fwdvar={if texts.any (fun t => !orderOk t) then 1 else 0}"
+     | none => "bad-op")
+  | _ => "bad-op"
+
 end YaegiVerif.Driver.C11
